@@ -80,7 +80,11 @@ def run_specs(pid, tier, seed, args, specs, level="model_checking", rule="", ass
         total = float(os.environ.get("VERIF_THOROUGH_TOTAL", "1500"))
         if args is not None and args.budget:
             total = args.budget * len(specs)
-        specs = [(n, sp, d, total / len(specs)) for (n, sp, d, b) in specs]
+        # narrow seeded explorations first (they usually exhaust their frontier early); whatever they leave of
+        # the total goes to the full-alphabet explorations: each one gets remaining / (explorations still to run)
+        specs.sort(key=lambda x: ("-" not in x[0].split("@")[0], "@quick" not in x[0]))
+        specs = [(n, sp, d, None) for (n, sp, d, b) in specs]
+        thorough_total = total
         if args is not None:
             args.budget = None
     known = runner.load_known()
@@ -93,11 +97,13 @@ def run_specs(pid, tier, seed, args, specs, level="model_checking", rule="", ass
     caps = []
     det = {"rerun": 0, "ok": True}
     set_digests = {}
-    for (name, spec, depth, budget) in specs:
+    for idx, (name, spec, depth, budget) in enumerate(specs):
         if args is not None and args.depth:
             depth = args.depth
         if args is not None and args.budget:
             budget = args.budget
+        if budget is None:
+            budget = max(30.0, (thorough_total - (time.time() - t0)) / (len(specs) - idx))
         seeds = spec.seeds() if hasattr(spec, "seeds") else None
         res = engine.explore(spec, depth, workers=args.workers if args else None, seed=seed, budget_s=budget,
                              init_hists=seeds)
